@@ -196,9 +196,25 @@ def mon_isolation(sh, seed, i, tier, valid):
             for c in t.columns:
                 c.properties['injected'] = 'z'
                 c.name = c.name + '_edited'
+                if hasattr(c.default, 'text') and not isinstance(c.default, str):
+                    c.default.text = c.default.text + ' /*edited*/'
+            for ix in t.indexes:
+                for sbj in ix.subjects:
+                    if hasattr(sbj, 'text') and not hasattr(sbj, 'table'):
+                        sbj.text = sbj.text + ' /*edited*/'
+                if ix.note is not None:
+                    ix.note.text = 'changed index note'
         A.add(Table('added_by_edit', columns=[Column('q', 'int')]))
         for e in A.enums:
             e.add_item('injected_item')
+            for it in e.items:
+                if it.note is not None:
+                    it.note.text = 'changed item note'
+        for g in A.table_groups:
+            if g.note is not None:
+                g.note.text = 'changed group note'
+        for st in A.sticky_notes:
+            st.text = 'changed sticky'
         after_b = digest([walk.content(B), B.dbml, B.sql])
         if after_b != before_b:
             sh.violation('isolation', 'isolation:edit-leaks-into-other-result', 'editing one result changed another', {'kind': 'iso', 'a': a, 'b': b})
